@@ -25,6 +25,8 @@ static void part_a(void)
 	for (c = 1; c <= 0x10ffff; c++) {
 		unsigned char e[4];
 		int l, k;
+		if ((c & 0x3fff) == 1)
+			nv_guard(120, "c16-hang", "the scalar values from U+%04X", c);
 		if (c >= 0xd800 && c <= 0xdfff)
 			continue;
 		if ((long) (c % nv_nshards) != nv_shard)
